@@ -344,12 +344,12 @@ func fnCommandList(ctx *cmdContext, args map[string]any) (output respValue, err 
 
 func fnSort(ctx *cmdContext, args map[string]any) (output respValue, err error) {
 	sourceKeyName := args["key"].(string)
-	byPattern, _ := args["by-pattern"].(string)
+	byPattern, hasBy := args["by-pattern"].(string)
 	offset_count, hasOffset := args["limit"].(*orderedMap)
 	getPatternsAny, _ := args["get-pattern"].([]any)
 	_, isDesc := args["order.desc"]
 	_, isAlpha := args["sorting"] // this name may be a redis bug
-	destKeyName, _ := args["destination"].(string)
+	destKeyName, hasDest := args["destination"].(string)
 
 	start := -1
 	count := -1
@@ -379,7 +379,7 @@ func fnSort(ctx *cmdContext, args map[string]any) (output respValue, err error) 
 		return
 	}
 
-	output = ctx.dsc.sort(sourceKeyName, byPattern, destKeyName, start, count, getPatterns, hasOffset, isDesc, isAlpha)
+	output = ctx.dsc.sort(sourceKeyName, byPattern, destKeyName, start, count, getPatterns, hasOffset, isDesc, isAlpha, hasBy, hasDest)
 	return
 }
 
